@@ -164,7 +164,7 @@ def oracle(o):
             # the open finding: the difference is exactly the depthwise classification of full convolutions exported 1 -> 1
             explained = bool(deg) and o['pruned']['disc'][n] == o['exp_plain_generic'][n]
             key = ('dw-degenerate-1to1:' + n) if explained else ('discrete-cost-differs-from-exported:' + n)
-            out.append((key, 'discrete %s = %r but the exported network costs %r from scratch%s' % (n, o['pruned']['disc'][n], ep, (' (full convolution(s) %s exported 1->1 are classified depthwise by conv_dw_constraint; with the generic formula for them: %r)' % (deg, o['exp_plain_generic'][n])) if explained else '')))
+            out.append((key, 'discrete %s = %r (after switch %s) but the exported network costs %r from scratch%s' % (n, o['pruned']['disc'][n], (o.get('switches') or ['-'])[0], ep, (' (full convolution(s) %s exported 1->1 are classified depthwise by conv_dw_constraint; with the generic formula for them: %r)' % (deg, o['exp_plain_generic'][n])) if explained else '')))
         if o['reimport']['disc'][n] != ep or not close(o['reimport']['cont'][n], Fraction(ep), REL_CONT):
             out.append(('reimported-cost-differs-from-scratch:' + n, 'PIT(exported).cost %s = %r / %r (discrete / continuous), from scratch %r' % (n, o['reimport']['disc'][n], o['reimport']['cont'][n], ep)))
         if o['single']:
@@ -185,8 +185,8 @@ def oracle(o):
             if val != ep:
                 explained = bool(deg) and val == o['exp_plain_generic'][n]
                 key = ('dw-degenerate-1to1:' + n) if explained else ('cost-%s-differs-from-exported:%s' % (label, n))
-                out.append((key, '%s: discrete %s = %r, before the re-assignment %r, exported network from scratch %r (depthwise layers with pruned channels: %s)'
-                            % (label, n, val, o['pruned']['disc'].get(n), ep, o.get('dw_pruned'))))
+                out.append((key, '%s: discrete %s = %r, before the re-assignment %r, exported network from scratch %r (depthwise layers with pruned channels: %s; trainability switches: %s)'
+                            % (label, n, val, o['pruned']['disc'].get(n), ep, o.get('dw_pruned'), o.get('switches'))))
             if label != 'rewrapped' and n in o['pruned']['cont'] and not same_float(obs['cont'][n], o['pruned']['cont'][n]):
                 out.append(('cost-%s-changes-continuous-cost:%s' % (label, n), '%s: continuous %s = %r, before %r' % (label, n, obs['cont'][n], o['pruned']['cont'][n])))
     if 'params' in names:
